@@ -15,3 +15,6 @@ def run(ctx):
     ]
     exp = {h: [PANIC] for h in ('c18_new_invalid_panics', 'c18_new_two_sided_invalid_panics', 'c18_new_upper_invalid_panics', 'c18_new_lower_invalid_panics')}
     core.run_kani_set(ctx, ['c18_'], bound='all f64/f32 bit patterns', harness_timeout=600, expected_fail=exp)
+    if ctx.tier == 'thorough':
+        # thorough tier: the same harnesses decided a second time by an independent SAT solver (kissat instead of CaDiCaL)
+        core.run_kani_set(ctx, ['c18_'], bound='all f64/f32 bit patterns', harness_timeout=1800, expected_fail=exp, solver='kissat')
